@@ -146,6 +146,15 @@ Section Minerals.
        lp_rtol := c_1em6;
        lp_first := nabs (t1 - t0) * c_1em1 |}.
 
+  (* ---- the argument validation at the top of update_orientations.  `bad` names a malformed call
+     (1: velocity-gradient argument not callable, 2: the pathline's position entry not callable, 3 / 4: pathline
+     with two / four entries): ValueError, raised before any user callable is evaluated, before the integrator
+     is constructed and with the stored history untouched; otherwise the problem instance is built. *)
+  Definition malformed_call (bad : Z) : bool :=
+    orb (Z.eqb bad 1) (orb (Z.eqb bad 2) (orb (Z.eqb bad 3) (Z.eqb bad 4))).
+  Definition checked_problem (bad : Z) (Fd : list F) (s : snapshot) (t0 t1 : F) : res lsoda_problem :=
+    if malformed_call bad then Err ValueError else Ok (lsoda_problem_of Fd s t0 t1).
+
   (* ---- the solver loop: perform_step is called once, then while solver.status == "running".
      Each step hands back the integrator's state vector (an oracle) or fails
      (step() returns a message and the status is "failed": IterationError, nothing stored).
